@@ -1,6 +1,6 @@
 (* Extraction of the executable model for the correspondence check.
    ExtrOcamlBasic only: bool, option, unit, list, prod, sumbool, sumor map to OCaml's; nat stays Peano. *)
 From Coq Require Import Extraction ExtrOcamlBasic.
-From NJ Require Import Edits Monitors.
+From NJ Require Import Base Edits Registry Classify Select Reorder Machine Bind Monitors.
 Extraction Language OCaml.
-Extraction "model.ml" edits_obs mon_C18.
+Extraction "model.ml" edits_obs mon_C18 model_run mkCase mkTyenv mkTy mkPdesc.
